@@ -98,6 +98,13 @@ def sweep_impl(rep, tier, seed):
                     got = stats.downsample_2d(a, (f1, f2), method)
                     rep.check(got.shape == ref.shape and close(got, ref), "downsample_2d is not the mean/median of each full tile",
                               function="core/stats.py::downsample_2d", input=inp)
+                    # the same values in the other memory layouts a block can arrive in: channel-major (Fortran order, what
+                    # read_block's transposed reads produce) and a strided view - the result is defined on indices, not layout
+                    for lname, av in (("fortran", np.asfortranarray(a)), ("strided", np.repeat(a, 2, axis=1)[:, ::2])):
+                        gl = stats.downsample_2d(av, (f1, f2), method)
+                        rep.check(gl.shape == ref.shape and close(gl, ref),
+                                  f"downsample_2d is not the mean/median of each full tile ({lname} memory layout)",
+                                  function="core/stats.py::downsample_2d", input=dict(inp, layout=lname))
                     gotf = stats.downsample_2d_flat(a.ravel().copy(), f1, f2, d1, d2, method)
                     rep.check(gotf.shape == (ref.size,) and close(gotf, ref.ravel()),
                               "downsample_2d_flat is not the mean/median of each full tile (row-major)",
@@ -111,6 +118,11 @@ def sweep_impl(rep, tier, seed):
                     rep.check(out.data.shape == ref.shape and close(out.data, ref) and out.header.nchans == d1 // f1
                               and out.header.nsamples == d2 // f2, "FilterbankBlock.downsample data/header",
                               function="block.py::FilterbankBlock.downsample", input=dict(shape=[d1, d2], factors=[f1, f2], method=method, seed=seed))
+                    outf = FilterbankBlock(np.asfortranarray(a), hdr(d2, d1)).downsample(ffactor=f1, tfactor=f2, filter_method=method)
+                    rep.check(outf.data.shape == ref.shape and close(outf.data, ref),
+                              "FilterbankBlock.downsample of a channel-major (transposed) block differs from the tile means/medians",
+                              function="block.py::FilterbankBlock.downsample",
+                              input=dict(shape=[d1, d2], factors=[f1, f2], method=method, seed=seed, layout="fortran"))
     # ---- linear detrending: least-squares residual
     for n in [1, 2, 3, 5, 16, 101]:
         x = (rng.normal(0, 1, n) + 0.3 * np.arange(n) - 7).astype(np.float32)
